@@ -5,5 +5,6 @@
 extern crate napi_build;
 
 fn main() {
+    println!("cargo::rustc-check-cfg=cfg(datadog_dd_native_iast_rewriter_js_verif)");
     napi_build::setup();
 }
